@@ -905,15 +905,46 @@ func checkStripSlices(c *Ctx) {
 				id, ok := ast.Unparen(e).(*ast.Ident)
 				return ok && info.ObjectOf(id) == xobj
 			}
-			// facts of the enclosing if-bodies
+			// facts that hold where the slice is evaluated: conditions of the enclosing if-bodies, and the
+			// negation of earlier guards of the form `if C { return / continue / break / panic }` in enclosing blocks
 			bound, pre, suf := 0, "", ""
+			var facts []fact
 			var child ast.Node = se
 			for p := pm[se]; p != nil; child, p = p, pm[p] {
-				ifs, isIf := p.(*ast.IfStmt)
-				if !isIf || child != ifs.Body {
-					continue
+				switch x := p.(type) {
+				case *ast.IfStmt:
+					if child == ast.Node(x.Body) {
+						facts = append(facts, impliedFacts(x.Cond, true)...)
+					} else if child == x.Else {
+						facts = append(facts, impliedFacts(x.Cond, false)...)
+					}
+				case *ast.BlockStmt:
+					for _, st := range x.List {
+						if st == child || st.Pos() >= child.Pos() {
+							break
+						}
+						g, isIf := st.(*ast.IfStmt)
+						if !isIf || g.Else != nil || len(g.Body.List) == 0 {
+							continue
+						}
+						switch last := g.Body.List[len(g.Body.List)-1].(type) {
+						case *ast.ReturnStmt, *ast.BranchStmt:
+							facts = append(facts, impliedFacts(g.Cond, false)...)
+						case *ast.ExprStmt:
+							if call, isCall := last.X.(*ast.CallExpr); isCall && builtinName(info, call) == "panic" {
+								facts = append(facts, impliedFacts(g.Cond, false)...)
+							}
+						}
+					}
+				case *ast.FuncLit:
+					p = nil
 				}
-				for _, f := range impliedFacts(ifs.Cond, true) {
+				if p == nil {
+					break
+				}
+			}
+			{
+				for _, f := range facts {
 					switch e := ast.Unparen(f.expr).(type) {
 					case *ast.CallExpr:
 						fn := calleeOf(info, e)
@@ -932,7 +963,13 @@ func checkStripSlices(c *Ctx) {
 						}
 					case *ast.BinaryExpr:
 						if !f.val {
-							continue
+							// a failed comparison is the opposite comparison
+							neg := map[token.Token]token.Token{token.LSS: token.GEQ, token.LEQ: token.GTR, token.GTR: token.LEQ, token.GEQ: token.LSS, token.EQL: token.NEQ, token.NEQ: token.EQL}
+							if op, ok := neg[e.Op]; ok {
+								e = &ast.BinaryExpr{X: e.X, Op: op, Y: e.Y, OpPos: e.OpPos}
+							} else {
+								continue
+							}
 						}
 						lenOfX := func(y ast.Expr) bool {
 							if l := lenArg(info, y); l != nil && isX(l) {
